@@ -23,7 +23,7 @@ theorem step_stx32_state {env : Env} {m : Mach} (h9 : m.reg 9 = some stateW) (v 
     step env ⟨opStoreReg32, 9, v, (k : Int), imm⟩ nxt m =
       .next { m with st := writeAt m.st k (toLE x.toNat 4) } := by
   have hr := region_state k 4 hk
-  simp [step, opStoreReg32, opLoadImm64, h9, hv, Mach.store, hr]
+  simp [step, opStoreReg32, opStoreReg8, opStoreReg16, opStoreReg64, opLoadImm64, h9, hv, Mach.store, hr]
 
 set_option maxRecDepth 8000 in
 theorem region_ctx (k n : Nat) (h : k + n ≤ 192) :
@@ -47,9 +47,9 @@ theorem step_ld_cb {env : Env} {m : Mach} (h6 : m.reg 6 = some ctxW) (d k : Nat)
   have hd' : ¬ d ≥ 10 := by omega
   rcases hk with rfl | rfl
   · have hr := region_ctx 48 4 (by omega)
-    simp [step, opLoadReg32, opLoadImm64, hd', h6, Mach.load, hr]
+    simp [step, opLoadReg32, opLoadReg8, opLoadReg16, opLoadReg64, opLoadImm64, hd', h6, Mach.load, hr]
   · have hr := region_ctx 52 4 (by omega)
-    simp [step, opLoadReg32, opLoadImm64, hd', h6, Mach.load, hr]
+    simp [step, opLoadReg32, opLoadReg8, opLoadReg16, opLoadReg64, opLoadImm64, hd', h6, Mach.load, hr]
 
 theorem step_exit (env : Env) (m : Mach) (r0 : Word) (nxt : Option Insn) (h : m.reg 0 = some r0) :
     step env ⟨opExit, 0, 0, 0, 0⟩ nxt m = .exit r0 m := by
@@ -75,9 +75,17 @@ theorem lrun_ins_tail {env : Env} {i : Insn} {r : List Ev} {m m' : Mach} {fd : I
 /-- The state-map lookup of the header. -/
 theorem step_call_state (env : Env) (m : Mach) (nxt : Option Insn)
     (h1 : m.reg 1 = some (mapHandle env.c.stateMapFD))
-    (h2 : m.reg 2 = some (stackW + BitVec.ofInt 64 ((508 : Nat) : Int) - 512))
+    (h2 : m.reg 2 = some (stackW + BitVec.ofInt 64 (((508 : Nat) : Int) - 512)))
     (hk : readStack m.stack 508 4 = some (toLE 0 4)) (hs : env.stateOK = true) :
     step env ⟨opCall, 0, 0, 0, helperMapLookupElem⟩ nxt m = .next ((m.clobber).setReg 0 stateW) := by
-  sorry
+  have hr := region_stack 508 4 (by omega)
+  have hl : m.load env (stackW + BitVec.ofInt 64 (((508 : Nat) : Int) - 512)) 4 = some 0 := by
+    unfold Mach.load
+    rw [hr]
+    simp only [hk, Option.map_some]
+    rfl
+  have hn : BitVec.ofInt 64 (((508 : Nat) : Int) - 512) = 18446744073709551612#64 := by decide
+  rw [hn] at hl h2
+  simp [step, opCall, opLoadImm64, opJumpA, opExit, helperCall, helperMapLookupElem, h1, h2, hl, hs, stateW]
 
 end CalicoVerif.C11
